@@ -561,14 +561,25 @@ def rule_rd_rfc(cx, rep, port):
             rep.violated('quote parity', fd, 'quoted_rfc record assembly does not test the parity of the quote count of the first and of each continuation line ({} tests found)'.format(len(parity)))
             return
         (n1, v1, eq1, s1), (n2, v2, eq2, s2) = parity
-        first_ok = (v1 == 0 and eq1) and isinstance(n1.body[0], ast.Return)
-        cont_ok = (v2 == 1 and eq2) and isinstance(n2.body[0], ast.Return)
+        g = cfgmod.CFG(fd)
+        reads = lambda n: cfgmod.node_contains(n, lambda x: isinstance(x, ast.Call) and (call_name(x) or '').endswith('get_row_simple'))  # noqa: E731
+        is_ret = lambda n: isinstance(n.ast, ast.Return) and n.ast.value is not None and not is_none(n.ast.value)  # noqa: E731
+
+        def ends_record(if_node):
+            """when the test holds the function returns a record without reading another line (return in place, or break + return)"""
+            tn = [n for n in g.nodes if n.kind == 'test' and n.ast is if_node.test]
+            if not tn:
+                return False
+            succ = [s_ for s_, lab in tn[0].succ if lab == 'T']
+            return bool(succ) and all((is_ret(s_) or g.exists_path(s_, is_ret, avoid=reads)) and not (reads(s_) or g.exists_path(s_, reads, avoid=is_ret)) for s_ in succ)
+        first_ok = (v1 == 0 and eq1) and ends_record(n1)
+        cont_ok = (v2 == 1 and eq2) and ends_record(n2)
         rep.decide(first_ok, 'first line', n1, 'a first line with an even number of quotes is a complete record', 'the first-line test `{}` does not return lines with balanced quotes as complete records'.format(node_text(n1.test)))
         rep.decide(cont_ok, 'continuation', n2, 'the record ends with the first continuation line that has an odd number of quotes', 'the continuation test `{}` does not end the record at the line that closes the open quote'.format(node_text(n2.test)))
         joins = [c for c in walk_no_nested(fd) if isinstance(c, ast.Call) and isinstance(c.func, ast.Attribute) and c.func.attr == 'join' and isinstance(c.func.value, ast.Constant)]
         rep.decide(joins and all(j.func.value.value == '\n' for j in joins), 'line joining', joins[0] if joins else fd, 'physical lines are joined with LF', 'physical lines of a multi-line record are joined with {!r} instead of LF'.format(joins[0].func.value.value if joins else None))
         eofret = [n for n in walk_no_nested(fd) if isinstance(n, ast.If) and isinstance(n.test, ast.Compare) and is_none(n.test.comparators[0]) and dotted(n.test.left) == 'row']
-        rep.decide(bool(eofret) and isinstance(eofret[0].body[0], ast.Return) and not is_none(eofret[0].body[0].value), 'unfinished record', eofret[0] if eofret else fd, 'an unfinished record at end of input is still returned', 'an unfinished multi-line record at end of input is dropped')
+        rep.decide(bool(eofret) and ends_record(eofret[0]), 'unfinished record', eofret[0] if eofret else fd, 'an unfinished record at end of input is still returned', 'an unfinished multi-line record at end of input is dropped')
         apps = [c for c in walk_no_nested(fd) if isinstance(c, ast.Call) and isinstance(c.func, ast.Attribute) and c.func.attr == 'append']
         rep.decide(len(apps) == 1, 'line collection', apps[0] if apps else fd, 'every continuation line is collected', 'continuation lines are not all collected')
     else:
